@@ -745,3 +745,80 @@ def c09(scn):
             if pu.O[key] != ta[0].O.get(key):
                 fails.append(("repeat_reproduces", "%s differs between two identical successive updates" % key))
     return fails[:10]
+
+
+# ----------------------------------------------------------------------------- C20
+
+OPF = {  # (graph_updated, elevation_updated, in_dir, out_dir) as documented for each operator class
+    "single": (True, False, None, "single"),
+    "multi": (True, False, None, "multi"),
+    "pflood": (False, True, None, None),
+    "mst": (True, True, "single", "single"),
+    "snap": (False, False, None, None),
+}
+
+
+def opseq_spec(ops):
+    """-> None if the sequence must be refused, else dict(dir, all_single, elev_edit, gkeys, ekeys)"""
+    cur = None
+    defines = False
+    all_single = True
+    elev = False
+    gkeys, ekeys = [], []
+    for o in ops:
+        f = o.split(":")
+        gu, eu, ind, outd = OPF[f[0]]
+        if f[0] == "snap":
+            if "g" in f[2]:
+                if cur is None:
+                    return None
+                gkeys.append(f[1])
+            if "e" in f[2]:
+                ekeys.append(f[1])
+        if ind is not None and ind != cur:
+            return None
+        if gu and outd is not None:
+            cur = outd
+            defines = True
+            if outd != "single":
+                all_single = False
+        elev = elev or eu
+    if not defines:
+        return None
+    return dict(dir=cur, all_single=all_single, elev_edit=elev, gkeys=gkeys, ekeys=ekeys)
+
+
+def c20(scn):
+    fails = []
+    topo = Topo(scn)
+    for c in scn.calls:
+        if c.cmd == "graph":
+            ops = c.toks[1:]
+            spec = opseq_spec(ops)
+            got = c.O.get("graph", ["?"])
+            if spec is None:
+                if got[0] != "err":
+                    fails.append(("accepts_iff", "sequence %s must be refused but construction gave %s" % (ops, got)))
+                continue
+            if got != ["ok"]:
+                fails.append(("accepts_iff", "sequence %s must be accepted but construction gave %s" % (ops, got)))
+                continue
+            if c.O.get("single_flow") != ["1" if spec["dir"] == "single" else "0"]:
+                fails.append(("out_dir_is_last_defined", "ops %s: single_flow()=%s, last direction-defining operator is %s" % (ops, c.O.get("single_flow"), spec["dir"])))
+            want_w = 1 if spec["all_single"] else topo.nmax
+            if c.O.get("rwidth") != [str(want_w)]:
+                fails.append(("single_column_iff_all_single", "ops %s: receiver table width %s, expected %d" % (ops, c.O.get("rwidth"), want_w)))
+            if c.O.get("gkeys", []) != spec["gkeys"] or c.O.get("ekeys", []) != spec["ekeys"]:
+                fails.append(("snapshot_keys_in_order", "ops %s: keys %s / %s, expected %s / %s" % (ops, c.O.get("gkeys"), c.O.get("ekeys"), spec["gkeys"], spec["ekeys"])))
+            last = (ops, spec)
+        elif c.cmd == "update" and c.O.get("update") == ["ok"]:
+            ops = c.i("ops", [])
+            spec = opseq_spec(ops)
+            if spec is None:
+                continue
+            want = "0" if spec["elev_edit"] else "1"
+            if c.O.get("same_array") != [want]:
+                fails.append(("returns_callers_array_iff_no_elevation_edit", "ops %s: same_array=%s expected %s" % (ops, c.O.get("same_array"), want)))
+            if c.O.get("input_unchanged") != ["1"]:
+                fails.append(("input_unchanged", "ops %s: the caller's elevation array was written" % (ops,)))
+    return fails
